@@ -487,8 +487,13 @@ pub fn gen_broken(rng: &mut Rng, thorough: bool) -> (Spec, &'static str) {
                     }
                 }
                 let x = a + rng.below((b - a + 1) as u64) as u32;
-                let lo = x.saturating_sub(rng.below(2) as u32);
-                let hi = (x + rng.below(2) as u32).min(MAXC);
+                let mut lo = x.saturating_sub(rng.below(2) as u32);
+                let mut hi = (x + rng.below(2) as u32).min(MAXC);
+                if rng.chance(1, 3) {
+                    // the very same label twice, with two different targets
+                    lo = a;
+                    hi = b;
+                }
                 let pos = rng.usize(spec.calls.len() + 1);
                 spec.calls.insert(pos, Call::Trans(s, lo, hi, tg));
                 // the new target must itself be a complete state: give it a default if it is new
